@@ -176,12 +176,13 @@ class Repo:
                     rel = os.path.relpath(full, self.root)
                     seen.add(rel)
                     if rel in self.overlay:
-                        yield rel, self.overlay[rel]
+                        if self.overlay[rel] is not None:  # None: removed by the overlay
+                            yield rel, self.overlay[rel]
                     else:
                         with open(full, encoding="utf-8") as fh:
                             yield rel, fh.read()
         for rel, src in sorted(self.overlay.items()):
-            if rel not in seen and rel.endswith(".py"):
+            if rel not in seen and rel.endswith(".py") and src is not None:
                 yield rel, src
 
     @staticmethod
@@ -329,6 +330,14 @@ class Repo:
     def _link(self):
         for mi in self.modules.values():
             self._load_module_defs(mi)
+        # a module-level value imported from another module of the package
+        # (constants / tables moved to a `_constants` module) is looked up as
+        # if it were assigned here
+        for _ in range(3):
+            for mi in self.modules.values():
+                for local, (src, attr) in mi.imports.items():
+                    if attr and local not in mi.assigns and src in self.modules and attr in self.modules[src].assigns:
+                        mi.assigns[local] = self.modules[src].assigns[attr]
         # nested functions of methods: propagate cls
         for fi in self.functions.values():
             p = fi.parent
